@@ -158,7 +158,17 @@ def build(repo, unit_dir, defines=None, mutate=None, force_external=None, extra_
                 b.clauses[cl.tag] = cl
     for rw in rewrites:
         if rw.count != "any" and rw.fired != rw.count and not os.environ.get("VT_LAX"):
-            raise ExtractError(f"normalisation {rw.rule} `{' '.join(rw.find)}` (scope {rw.scope}) fired {rw.fired} times, expected {rw.count} (lost anchor)")
+            msg = f"normalisation {rw.rule} `{' '.join(rw.find)}` (scope {rw.scope}) fired {rw.fired} times, expected {rw.count} (lost anchor)"
+            # a rule whose scope is exactly one function: that function's text changed shape -> it is degraded (decided by
+            # replay only) instead of making every check undecided
+            inscope = [fid for fid in b.fns if not fid.startswith("type::") and
+                       (fid == rw.scope or (rw.scope.endswith("*") and fid.startswith(rw.scope[:-1])))]
+            if len(inscope) == 1 and inscope[0] not in force_external and mutate is None:
+                return build(repo, unit_dir, defines=defines, mutate=None,
+                             force_external=dict(force_external, **{inscope[0]: msg}), extra_fns=extra_fns)
+            if len(inscope) == 1 and inscope[0] in force_external:
+                continue
+            raise ExtractError(msg)
     for rel, (src, _) in cache.items():
         b.sources[rel] = hashlib.sha256(src.encode()).hexdigest()
     b.not_under_contract = items.get("not_under_contract", {}).get("items", [])
